@@ -37,9 +37,13 @@ def _apply(v: Variant) -> dict[str, str] | None:
         src = open(path, encoding="utf-8").read()
     except OSError:
         return None
-    if src.count(v.old) != 1:
-        return None
-    new = src.replace(v.old, v.new)
+    olds = v.old if isinstance(v.old, (list, tuple)) else [v.old]
+    news = v.new if isinstance(v.new, (list, tuple)) else [v.new]
+    new = src
+    for o, n_ in zip(olds, news):
+        if new.count(o) != 1:
+            return None
+        new = new.replace(o, n_)
     try:
         compile(new, path, "exec")
     except SyntaxError:
